@@ -1244,7 +1244,12 @@ func c18FallbackCase(r *ev.Run, m *dyn.Model, batch int) {
 	if err != nil {
 		return
 	}
-	defer cl.Close()
+	stuck := false
+	defer func() {
+		if !stuck {
+			cl.Close()
+		}
+	}()
 	r.LogCase("C18 fallback monitor refused")
 	r.Eval(1)
 	r.Count("fallback_cases", 1)
@@ -1293,6 +1298,7 @@ func c18FallbackCase(r *ev.Run, m *dyn.Model, batch int) {
 	}
 	_ = hs.apply([]ref.Op{{Kind: "insert", Table: "T", UUID: p.UUID(), Row: c18Row("after", 2)}})
 	if !c18Probe(func() { _ = cl.Get(context.Background(), m.NewModel("T", "", ref.Row{"name": ref.Set(ref.Str("before"))})) }) {
+		stuck = true
 		r.Violation("C18/blocked-forever/fallback-monitor-refused/Get@"+blockedFrame(allStacks(), "Get"), "after a Monitor call that fell back to monitor_cond and was refused, Get never returns (45 s, nothing else running)", map[string]interface{}{"goroutines_in_libovsdb": allStacks()})
 		return
 	}
@@ -1301,9 +1307,71 @@ func c18FallbackCase(r *ev.Run, m *dyn.Model, batch int) {
 	}
 }
 
+// c18Update3Case: a monitor_cond_since monitor is established; while a second Monitor call
+// waits for its reply, the server notifies the first monitor (update3). The read loop must
+// handle that notification without waiting for anything the pending call holds, or the
+// reply is never read.
+func c18Update3Case(r *ev.Run, m *dyn.Model, batch int) {
+	p := prng.Derive(ev.Seed(), "C18update3", batch)
+	dir := wireScratch()
+	hs, err := newHistServer(m, fmt.Sprintf("%s/c18u-%d.sock", dir, batch), p)
+	if err != nil {
+		r.Inconclusive("history server: " + err.Error())
+		return
+	}
+	defer hs.close()
+	l := logr.Discard()
+	cl, err := client.NewOVSDBClient(m.Client, client.WithEndpoint("unix:"+hs.path), client.WithLogger(&l))
+	if err != nil {
+		return
+	}
+	stuck := false // a client that is blocked for good would block Close as well
+	defer func() {
+		if !stuck {
+			cl.Close()
+		}
+	}()
+	r.LogCase("C18 update3 during a monitor set-up")
+	r.Eval(1)
+	r.Count("update3_during_setup_cases", 1)
+	ctx, cancel := context.WithTimeout(context.Background(), 20*time.Second)
+	defer cancel()
+	if err := cl.Connect(ctx); err != nil {
+		r.Inconclusive("connect to the history server: " + err.Error())
+		return
+	}
+	if _, err := cl.Monitor(ctx, cl.NewMonitor(client.WithTable(m.NewModel("T", "", nil)))); err != nil {
+		r.Inconclusive("first monitor: " + err.Error())
+		return
+	}
+	hs.mu.Lock()
+	hs.replyDelay = 200 * time.Millisecond
+	hs.mu.Unlock()
+	go func() {
+		time.Sleep(60 * time.Millisecond) // the second request is with the server, its reply is not
+		_ = hs.apply([]ref.Op{{Kind: "insert", Table: "T", UUID: p.UUID(), Row: c18Row("during", 1)}})
+	}()
+	var merr error
+	if !c18Probe(func() {
+		_, merr = cl.Monitor(context.Background(), cl.NewMonitor(client.WithTable(m.NewModel("U", "", nil))))
+	}) {
+		stuck = true
+		r.Violation("C18/blocked-forever/update3-during-monitor-setup/Monitor@"+blockedFrame(allStacks(), "Monitor"), "a Monitor call never returns when the server notifies an established monitor_cond_since monitor before replying (45 s, nothing else running)", map[string]interface{}{"goroutines_in_libovsdb": allStacks()})
+		return
+	}
+	if merr != nil {
+		r.Count("update3_case.second_monitor_failed", 1)
+	}
+	if !c18Probe(func() { _ = cl.Echo(context.Background()) }) {
+		stuck = true
+		r.Violation("C18/blocked-forever/update3-during-monitor-setup/Echo", "Echo never returns after a Monitor call during which an update3 arrived", nil)
+	}
+}
+
 func c18Child(r *ev.Run, batch int) {
 	if m, err := dyn.Build(c18Schema(false), nil); err == nil {
 		c18FallbackCase(r, m, batch)
+		c18Update3Case(r, m, batch)
 	}
 
 	m, err := dyn.Build(c18Schema(false), nil)
